@@ -868,3 +868,66 @@ Contract(
     note="exceptions raised by the handlers propagate (not constrained); termination of the loop is not proved (C05 liveness)",
     props=("C03", "C05"),
 )
+
+
+# =================================================================================================
+# Simulator.__handle_task_cancellation : counter + the pending placement of a cancelled task is dropped (C06 / C08)
+# =================================================================================================
+from contracts.c_events import same_members  # noqa: E402
+
+
+def _hc_names(c):
+    s, ev = c.arg("self"), c.arg("event")
+    task = ev_task(c.pre, ev)
+    return s, ev, task, sim_queue(c.pre, s), fut(c.pre, s), tid(c.pre, task)
+
+
+def _hc_requires(c):
+    s, ev, task, lst, fm, k = _hc_names(c)
+    x = z3.Const(H.fresh_name("hc_x"), T.sort(T.STR))
+    return {
+        "task_event": task != 0,
+        # every cached future placement event is pending in the queue (they are cached when they are queued, and dropped
+        # from the cache when they are handled / removed)
+        "cached_placements_are_queued": z3.ForAll([x], z3.Implies(c.pre.d_dom(FutureMap, fm, x), mem(c.pre, lst, c.pre.d_val(FutureMap, fm, x))), patterns=[c.pre.d_dom(FutureMap, fm, x)]),
+    }
+
+
+def _hc_mod(c):
+    s, ev, task, lst, fm, k = _hc_names(c)
+    out = lst_mod(c, lst)
+    out[c.pre.fld_arr(SIM, "_cancelled_tasks")[0]] = [s]
+    for p_ in ("len", "keys", "idx", "dom"):
+        out[c.pre.carr(FutureMap, p_)[0]] = [fm]
+    return out
+
+
+def _hc_ens(c):
+    s, ev, task, lst, fm, k = _hc_names(c)
+    had = c.pre.d_dom(FutureMap, fm, k)
+    pending = c.pre.d_val(FutureMap, fm, k)
+    x = z3.Const(H.fresh_name("hc_y"), T.sort(T.STR))
+    return {
+        # C08: the cancelled-task counter counts exactly the TASK_CANCEL events handled
+        "count.cancelled_plus_one": c.post.rd(s, SIM, "_cancelled_tasks")[1] == c.pre.rd(s, SIM, "_cancelled_tasks")[1] + 1,
+        # C06: a cancelled task never starts: its pending placement (if any) leaves the queue and the cache
+        "cancel.pending_placement_dropped": z3.And(z3.Not(c.post.d_dom(FutureMap, fm, k)), z3.Implies(had, z3.And(same_members(c, lst, removed=pending), c.post.c_len(EL, lst) == c.pre.c_len(EL, lst) - 1))),
+        "cancel.queue_untouched_without_pending": z3.Implies(z3.Not(had), z3.And(c.post.c_len(EL, lst) == c.pre.c_len(EL, lst), c.post.l_elems(EL, lst) == c.pre.l_elems(EL, lst))),
+        "cancel.other_pending_placements_kept": z3.ForAll(
+            [x], z3.Implies(x != k, z3.And(c.post.d_dom(FutureMap, fm, x) == c.pre.d_dom(FutureMap, fm, x), c.post.d_val(FutureMap, fm, x) == c.pre.d_val(FutureMap, fm, x))), patterns=[c.post.d_dom(FutureMap, fm, x)]
+        ),
+        "queue.heap_ok": z3.Implies(z3.Or(had, is_heap(c.pre, lst)), is_heap(c.post, lst)),
+    }
+
+
+Contract(
+    "simulator.Simulator.__handle_task_cancellation",
+    params={"self": Simulator.ty, "event": S_.Event.ty},
+    requires=_hc_requires,
+    may_raise=("AttributeError",),
+    modifies=_hc_mod,
+    ensures=_hc_ens,
+    entry_facts=lambda c: [closed_queue(c)],
+    note="the TASK_CANCEL row is written through the csv logger (dropped like every logger call: row contents are decided by the bounded worlds); AttributeError when the event has no task",
+    props=("C06", "C08"),
+)
